@@ -11,7 +11,7 @@ RULE = ("cases are up to 3 classes (K0: int/str/list/optional fields, getters, s
         "methods, methods returning self/Self, a method taking another instance; K1: a field of class type with methods "
         "reaching through it; K2: same member names as K0 with different behaviour) with randomised constants, plus a "
         "history of up to 15 steps (construct, alias, method call, chained calls, field read/write/op-assign, write through a "
-        "nested field, pass to a function, store in / read from a list, `is`, replace a class-typed field, replace a list-typed field by a fresh / shared / outside list and push through one holder); after every "
+        "nested field, pass to a function, store in / read from a list, `is`, replace a class-typed field, replace a list-typed field by a fresh / shared / outside list and push through one holder, SNAPSHOT a field / element / class-typed field into a module variable - through `modify` inside a function or by a plain declaration - and write the source afterwards); after every "
         "step the `n` of every live K0/K2 object is printed. Oracle = reference interpreter with an object heap. Non-trivial "
         "= >= 2 instances of one class and an update through an alias that is read through another reference; distinct by "
         "program text")
@@ -78,9 +78,18 @@ def cases(draw):
     stmts.append(("decl", "a0", None, ("new", "K0", [I(g.int(0, 9)), S("a")]), ()))
     k0s.append("a0")
     distinct0 += 1
+    # SNAPSHOTS: a module variable receives what a field / element holds at one moment - through `modify` inside a function,
+    # or by a plain declaration - and must keep that value (for an object: that object) when the field is written later
+    K0T, K1T = ("cls", "K0"), ("cls", "K1")
+    stmts.append(("decl", "snapn", None, I(0 - 1), ()))
+    stmts.append(("decl", "snapk", None, V("a0"), ()))
+    stmts.append(("decl", "take_n", None, ("fn", [("k", K0T)], None, [("decl", "snapn", None, F(V("k"), "n"), ("modify",))]), ()))
+    stmts.append(("decl", "take_el", None, ("fn", [("k", K0T)], None, [("decl", "snapn", None, ("index", F(V("k"), "l"), I(0)), ("modify",))]), ()))
+    stmts.append(("decl", "take_inner", None, ("fn", [("w", K1T)], None, [("decl", "snapk", None, F(V("w"), "inner"), ("modify",))]), ()))
+    copies = []
     steps = g.int(3, 15)
     for step in range(steps):
-        ops = [(3, "new0"), (2, "alias"), (4, "method"), (2, "chain"), (3, "fieldw"), (2, "fieldr"), (2, "is"), (2, "fn"),
+        ops = [(3, "snapshot"), (3, "new0"), (2, "alias"), (4, "method"), (2, "chain"), (3, "fieldw"), (2, "fieldr"), (2, "is"), (2, "fn"),
                (3, "new1"), (1, "new2"), (1, "list"), (2, "absorb"), (1, "twin"), (1, "opt"), (3, "listfield")]
         if k1s:
             ops += [(3, "k1op")]
@@ -89,7 +98,37 @@ def cases(draw):
         if lists:
             ops += [(2, "listop")]
         op = g.weighted(ops)
-        if op == "new0" and len(k0s) < 6:
+        if op == "snapshot":
+            o = g.choice(k0s)
+            k = g.choice(["fn-field", "fn-element", "fn-object-field", "copy-field", "copy-element"])
+            if k == "fn-object-field" and not k1s:
+                k = "fn-field"
+            g.label("snapshot:" + k)
+            if k == "fn-field":
+                stmts.append(("expr", ("call", V("take_n"), [V(o)])))
+            elif k == "fn-element":
+                stmts.append(("if", ("bin", ">", ("mcall", F(V(o), "l"), "len", []), I(0)), [("expr", ("call", V("take_el"), [V(o)]))], None))
+            elif k == "fn-object-field":
+                stmts.append(("expr", ("call", V("take_inner"), [V(g.choice(k1s))])))
+            elif k == "copy-field" and len(copies) < 3:
+                copies.append("cp%d" % step)
+                stmts.append(("decl", copies[-1], None, F(V(o), "n"), ()))
+            elif len(copies) < 3:
+                copies.append("cp%d" % step)
+                stmts.append(("decl", copies[-1], None, I(0 - 2), ()))
+                stmts.append(("if", ("bin", ">", ("mcall", F(V(o), "l"), "len", []), I(0)), [("decl", copies[-1], None, ("index", F(V(o), "l"), I(0)), ())], None))
+            # ... and the source is written right away, so that a snapshot that is really a view shows
+            w = g.choice(["setn", "opn", "seti", "none"])
+            if w == "setn":
+                stmts.append(("setf", V(o), "n", I(g.int(40, 49))))
+            elif w == "opn":
+                stmts.append(("opassign", F(V(o), "n"), "+=", I(g.int(1, 3))))
+            elif w == "seti":
+                stmts.append(("if", ("bin", ">", ("mcall", F(V(o), "l"), "len", []), I(0)), [("decl", "tl%d" % step, None, F(V(o), "l"), ()), ("seti", V("tl%d" % step), I(0), I(g.int(50, 59)))], None))
+            if k1s and g.chance(50):
+                stmts.append(("expr", ("mcall", V(g.choice(k1s)), "set_inner", [V(g.choice(k0s))])))
+            alias_write_then_read = alias_write_then_read or aliased
+        elif op == "new0" and len(k0s) < 6:
             name = "a%d" % (len(k0s) + len(k1s) + len(k2s) + step)
             stmts.append(("decl", name, None, ("new", "K0", [I(g.int(0, 9)), S(g.choice(["p", "q"]))]), ()))
             k0s.append(name)
@@ -239,6 +278,9 @@ def cases(draw):
             e = ("bin", "+", e, ("bin", "+", S(" "), F(V(o), "n")))
         for o in k0s:
             e = ("bin", "+", e, ("bin", "+", S(" l"), ("mcall", V(o), "sum", [])))
+        e = ("bin", "+", e, ("bin", "+", ("bin", "+", S(" snap "), V("snapn")), ("bin", "+", S(" "), F(V("snapk"), "n"))))
+        for c in copies:
+            e = ("bin", "+", e, ("bin", "+", S(" "), V(c)))
         stmts.append(("print", e))
     return {"stmts": stmts, "labels": sorted(g.labels), "nt": distinct0 >= 2 and alias_write_then_read}
 
